@@ -164,6 +164,21 @@ class Program:
             s += ' : %s' % self._t_jdf(d['f'], names)
         return s
 
+    def _isnew_c(self, ins, names):
+        """C expression (over the task's locals): the FIRST input dependency whose guard holds names NEW (this is the
+        dependency the generated data_lookup takes)"""
+        if not ins:
+            return '0'
+        d = ins[0]
+        rest = self._isnew_c(ins[1:], names)
+        t = '1' if d['t'][0] == 'new' else '0'
+        if d['g'] is None:
+            return t
+        e = ('1' if d['f'][0] == 'new' else '0') if d['f'] is not None else rest
+        if t == '0' and e == '0':
+            return '0'
+        return '(%s ? %s : %s)' % (e_jdf(d['g'], names), t, e)
+
     def jdf(self):
         n = self.name
         o = ['extern "C" %{', '#include "ptg_rt.h"', '%}', '',
@@ -200,7 +215,11 @@ class Program:
             o += ['BODY', '{', '  ptg_task_begin(es->th_id, %d, %d, %s);' % (ci, len(names), loc)]
             for fi, f in enumerate(c['flows']):
                 if f['acc'] != 'CTL':
-                    o.append('  ptg_flow(es->th_id, %d, %s, %s);' % (fi, {'R': 'PTG_READ', 'RW': 'PTG_RW', 'W': 'PTG_WRITE'}[f['acc']], f['name']))
+                    mode = {'R': 'PTG_READ', 'RW': 'PTG_RW', 'W': 'PTG_WRITE'}[f['acc']]
+                    isnew = self._isnew_c(f['ins'], names)
+                    if isnew != '0':
+                        mode = '%s | (%s ? PTG_NEW : 0)' % (mode, isnew)
+                    o.append('  ptg_flow(es->th_id, %d, %s, %s);' % (fi, mode, f['name']))
             o += ['  return ptg_task_end(es->th_id, %d, %d, %s);' % (ci, len(names), loc), '}', 'END', '']
         gl = ''.join(', g[%d]' % i for i in range(self.nglobals))
         o += ['extern "C" %{',
@@ -542,16 +561,28 @@ def pick_source(rng, nloc, ng, allow_null):
     return ('null',)
 
 
-def fix_mem(c):
-    for f in c['flows']:
+def fix_mem(c, ci=0, datasafe=False):
+    """fill in the placeholders ('m', None).  Default: the class's placement expression (valid on several ranks).
+    datasafe (C02, single process): one tile per (class, flow, instance) — a linear form of the range locals that is
+    injective on small spaces — so that in-place updates and write-backs of different instances never meet by accident
+    (whether they really do not is decided by the validity analysis, not assumed)."""
+    for fi, f in enumerate(c['flows']):
+        e = c['place']
+        if datasafe:
+            e = C(29 * (ci * 7 + fi) + 40)
+            coef = 1
+            for i, l in enumerate(c['locals']):
+                if l['kind'] == 'R':
+                    e = add(e, mul(V(i), C(coef)) if coef != 1 else V(i))
+                    coef *= 13
         for d in f['ins'] + f['outs']:
             for k in ('t', 'f'):
                 if d[k] is not None and d[k][0] == 'm' and d[k][1] is None:
-                    d[k] = ('m', c['place'])
+                    d[k] = ('m', e)
 
 
 # ------------------------------------------------------------------ program generation
-def gen_program(rng, name, mode='full', ngvecs=3, derived_params=True):
+def gen_program(rng, name, mode='full', ngvecs=3, derived_params=True, datasafe=False):
     """returns a Program, or None if the draw had to be rejected (caller retries with the next fork)"""
     shapes = mode == 'shapes'
     ng = rng.range(1, 3)
@@ -619,6 +650,10 @@ def gen_program(rng, name, mode='full', ngvecs=3, derived_params=True):
                 A['flows'].append(pf)
             else:
                 cands = [f for f in A['flows'] if f['acc'] in ('RW', 'W', 'R') and not any(d['t'] == ('null',) or d['f'] == ('null',) for d in f['ins'])]
+                if datasafe:
+                    # a copy that is passed on must not be updated in place by somebody else meanwhile: only pure readers of a
+                    # collection tile may be shared, everything else gets a dedicated WRITE flow
+                    cands = [f for f in cands if f['acc'] == 'R' and not f['outs'] and all(d['t'][0] == 'm' and d['f'] is None for d in f['ins'])]
                 if cands and rng.chance(2, 3):
                     pf = rng.choice(cands)
                 else:
@@ -645,6 +680,8 @@ def gen_program(rng, name, mode='full', ngvecs=3, derived_params=True):
                     cf['ins'].append({'g': guard, 't': src_t, 'f': None})
             else:
                 acc = rng.choice(['R', 'RW'])
+                if datasafe and ((c['extra'] and not chain_extra) or pf['acc'] == 'R'):
+                    acc = 'R'         # several consumers of one copy (fan-out range) / a collection tile read by others: read only
                 cf = {'acc': acc, 'name': 'Y%d_%d' % (ci, cfi), 'ins': [], 'outs': []}
                 alt = pick_source(rng, nl, ng, allow_null=(acc == 'R' and not chain_extra))
                 if chain_extra:
@@ -707,8 +744,8 @@ def gen_program(rng, name, mode='full', ngvecs=3, derived_params=True):
             if acc == 'RW':
                 f['outs'].append({'g': None, 't': ('m', None), 'f': None})
             flows.append(f)
-    for c in classes:
-        fix_mem(c)
+    for ci, c in enumerate(classes):
+        fix_mem(c, ci, datasafe)
     # data flows must not be more than PTG_MAXF, locals not more than PTG_MAXP
     for c in classes:
         if len(c['flows']) > 6 or len(c['locals']) > 8:
@@ -758,6 +795,7 @@ def neg_ok(prog, g):
     return True
 
 
+<<<<<<< HEAD
 def gen_wide(rng, name):
     """'wide' family: SPARSE BUT WIDE parameter spaces — 2-4 range parameters with 2-3 values each (<= ~50 instances) whose
     [min..max] extents are large (large |min| / max, large steps, negative bounds): the product of the extents is spread over
@@ -832,8 +870,17 @@ def gen_programs(rng, n, mode, prefix, derived_params=True):
     k = 0
     while len(out) < n and k < 50 * n + 50:
         p = gen_wide(rng.fork(k), '%s%d' % (prefix, len(out))) if mode == 'wide' else gen_program(rng.fork(k), '%s%d' % (prefix, len(out)), mode, derived_params=derived_params)
+=======
+def gen_programs(rng, n, mode, prefix, derived_params=True, datasafe=False, accept=None):
+    """n programs named <prefix>0.. (rejected draws are retried on the next fork of the stream).
+    accept(prog) -> bool: an extra filter (e.g. the data-validity analysis of C02); it may prune prog.gvecs."""
+    out = []
+    k = 0
+    while len(out) < n and k < 50 * n + 50:
+        p = gen_program(rng.fork(k), '%s%d' % (prefix, len(out)), mode, derived_params=derived_params, datasafe=datasafe)
+>>>>>>> prop/PTGRT
         k += 1
-        if p is not None:
+        if p is not None and (accept is None or accept(p)):
             out.append(p)
     return out
 
